@@ -105,7 +105,7 @@ fn gen_prog(t: &mut Tape, st: &mut Stats) -> Prog {
             Prog { text, kind: Kind::Nested, on_error: t.flip(), subs }
         }
         k => {
-            let p = gen_program(t, GenCfg { functions: false, failures: false, max_depth: 4, max_stmts: 30, long_loops: false, probe_conditions: false, lib_calls: false });
+            let p = gen_program(t, GenCfg { breaks: false, functions: false, failures: false, max_depth: 4, max_stmts: 30, long_loops: false, probe_conditions: false, lib_calls: false });
             let r = render(&p, t, false);
             if k == 1 {
                 Prog { text: r.text, kind: Kind::Structured, on_error: false, subs: vec![] }
@@ -178,6 +178,14 @@ fn case_internal(t: &mut Tape, st: &mut Stats) -> Verdict {
     for k in ks {
         prep(&p);
         with_hz(|h| h.halt_at = Some(k as u64));
+        // one halting point in four: an earlier invocation replaced the env's halt token by a fresh one (a command that
+        // arms a new cancel token); the flag raised later through the env is the one that counts. Not in programs with
+        // nested runs: a nested run has an env of its own, and a token replaced there is not the outer run's
+        if k >= 2 && p.subs.is_empty() && t.chance(1, 4) {
+            let j = 1 + t.below(k - 1);
+            with_hz(|h| h.rearm_at = Some(j as u64));
+            st.class("halt-token-replaced-by-an-earlier-command");
+        }
         // the embedder either keeps a clone of the flag or hands its only reference to the env
         let flag = Arc::new(AtomicBool::new(false));
         let out = if keep_clone { run_text(&p.text, context_for(&p), REF_FUEL * 2, Some(flag.clone())) } else { run_text(&p.text, context_for(&p), REF_FUEL * 2, None) };
@@ -397,7 +405,7 @@ pub fn property() -> Property {
     let _ = HashMap::<u8, u8>::new();
     Property {
         id: "C13",
-        rule: "(internal) programs over the scripted result-dictating command (goto loops, errors, on_error paths), structured while/for-in programs, scripted programs some of whose instructions run another script to its end through the runner on the same halt flag (what an include-style embedder command does; the flag may be raised inside such a nested run, which must stop the outer run too), and non-terminating wrappers (while true / while tick forever / label+goto) in which the k-th harness invocation raises the halt flag through the env it receives - k ranges over EVERY invocation of the un-halted reference run for runs of <= 12 invocations, 8 sampled otherwise - with the embedder either keeping a clone of the flag or not (and, one case in three, a run whose flag is already up when it reaches the boundary before its first instruction: nothing may start): the run must return Ok, its trace must equal the reference trace cut after invocation k, no further harness command may run, and the returned variables must equal the snapshot the halting command took (its own output variable aside). (thread) the same programs with a helper thread released by invocation j that sets the flag after a random spin: Ok, a prefix of the reference trace of length >= j, and at most one invocation after the counter value the helper observed. Non-trivial: the halt lands on a jumping, failing, error-handling or loop-condition instruction; distinct by (script, configuration)",
+        rule: "(internal) programs over the scripted result-dictating command (goto loops, errors, on_error paths), structured while/for-in programs, scripted programs some of whose instructions run another script to its end through the runner on the same halt flag (what an include-style embedder command does; the flag may be raised inside such a nested run, which must stop the outer run too), and non-terminating wrappers (while true / while tick forever / label+goto) in which the k-th harness invocation raises the halt flag through the env it receives - k ranges over EVERY invocation of the un-halted reference run for runs of <= 12 invocations, 8 sampled otherwise - with the embedder either keeping a clone of the flag or not, one halting point in four after an earlier invocation replaced the env's halt token by a fresh one (and, one case in three, a run whose flag is already up when it reaches the boundary before its first instruction: nothing may start): the run must return Ok, its trace must equal the reference trace cut after invocation k, no further harness command may run, and the returned variables must equal the snapshot the halting command took (its own output variable aside). (thread) the same programs with a helper thread released by invocation j that sets the flag after a random spin: Ok, a prefix of the reference trace of length >= j, and at most one invocation after the counter value the helper observed. Non-trivial: the halt lands on a jumping, failing, error-handling or loop-condition instruction; distinct by (script, configuration)",
         assumptions: &[
             "reference = the same program run without a halt (cut at 6000 instruction executions when it does not terminate); every top-level instruction of the generated programs invokes at most one harness command",
             "the second-thread schedule is sampled, not owned: a case whose run ends before the helper is released is discarded",
@@ -410,7 +418,7 @@ pub fn property() -> Property {
                     Tier::Thorough => Plan::Random { cases: 600_000, max_len: 800 },
                 },
                 case: case_internal,
-                min_classes: &[("halt-during-jumping-command", 1000), ("halt-during-failing-command", 500), ("halt-during-loop-condition-or-assignment", 1000), ("non-terminating-program", 1000), ("flag-only-reachable-through-env", 5000), ("halt-raised-inside-nested-run", 1000), ("flag-raised-before-the-first-instruction", 3000), ("program-with-output-only-lines", 2000)],
+                min_classes: &[("halt-during-jumping-command", 1000), ("halt-during-failing-command", 500), ("halt-during-loop-condition-or-assignment", 1000), ("non-terminating-program", 1000), ("flag-only-reachable-through-env", 5000), ("halt-raised-inside-nested-run", 1000), ("flag-raised-before-the-first-instruction", 3000), ("program-with-output-only-lines", 2000), ("halt-token-replaced-by-an-earlier-command", 2000)],
             },
             Section {
                 name: "thread",
